@@ -79,6 +79,7 @@ def vecStep (s : OV Nat) (toks : List String) : Option (OV Nat × String) :=
       match s.poll i with
       | none => some (s, "bad-sub")
       | some (it, s') => some (s', it.show)
+  | "vcdone" :: _ => some (s, "ok")     -- engine vconc: no trace to replay (free-running threads), oracles only
   | ["replica", r] =>     -- the ghost replica of the stream invariant (Lemmas/StreamInv.lean)
     match r.toNat?.bind (s.subs[·]?) with
     | none => some (s, "bad-sub")
